@@ -214,7 +214,7 @@ Lemma resolve_outputs_ok b ON sc : forall outs h cur h1 l,
   (forall v, In v l -> (exists k, k <> 0%N /\ In k outs /\ lookup k cur = Some v) \/ nv h <= v) /\
   NoDup l.
 Proof.
-  induction outs as [|k r IH];  cbn; intros h cur h1 l Hs H Hnd.
+  induction outs as [|k r IH];  cbn; intros h cur hf l Hs H Hnd.
   - inversion H; subst. csplit; auto using step_refl; try (intros v []); constructor.
   - destruct (N.eqb_spec k 0) as [Hz|Hz]; simpl in Hnd.
     + subst k. destruct (alloc_value h (Some 0%N) None 0%N) as [h0 v] eqn:Ea.
@@ -223,14 +223,14 @@ Proof.
       pose proof (st_ok_alloc _ _ _ _ _ _ _ _ _ _ Hs Ea) as Hs0.
       destruct (alloc_getv _ _ _ _ _ _ Ea) as (Hv & Hnv & Hn & Hg & Ht & Hnew & Hold & Hinv).
       destruct (IH _ _ _ _ Hs0 Er Hnd) as (A & B & C & D & E).
-      assert (Bs : step b ON h h2) by (eapply step_trans; [eapply alloc_step; eauto | eauto]).
+      assert (Bs : step b ON h hf) by (eapply step_trans; [eapply alloc_step; eauto | eauto]).
       csplit; auto.
-      * destruct H as [H|H]; [subst v0; rewrite Hv; apply (so_b _ _ _ _ _ Hs) | apply C; auto].
-      * destruct H as [H|H].
-        -- subst v0. destruct B as (_ & _ & _ & B4). destruct (B4 _ _ Hnew) as (x' & Hx' & Ev & _).
+      * intros u [Hu|Hu].
+        -- subst u. split; [rewrite Hv; apply (so_b _ _ _ _ _ Hs)|].
+           destruct B as (_ & _ & _ & B4). destruct (B4 _ _ Hnew) as (x' & Hx' & Ev & _).
            exists x', 0%N. split; auto. split; [left; auto|]. unfold vst in Ev; inversion Ev.
            unfold fresh_like, fresh_value in *; simpl in *. intuition congruence.
-        -- destruct (C _ H) as (_ & x & k & Hx & Hk & Hf). exists x, k. split; auto.
+        -- destruct (C _ Hu) as (Hb & x & k & Hx & Hk & Hf). split; auto. exists x, k. auto.
       * intros u [Hu|Hu]; [right; lia|]. destruct (D _ Hu) as [(k & Hk & Hin & Hl)|Hge].
         -- left. exists k. auto.
         -- right. lia.
@@ -245,11 +245,12 @@ Proof.
       pose proof (lookup_In _ _ _ El) as Hin.
       destruct (so_tbl _ _ _ _ _ Hs _ _ Hin) as (Hbv & x & Hx & Hf).
       csplit; auto.
-      * destruct H as [H|H]; [subst v0; auto | apply C; auto].
-      * destruct H as [H|H].
-        -- subst v0. destruct (so_tbl _ _ _ _ _ A _ _ Hin) as (_ & x1 & Hx1 & Hf1). exists x1, k. auto.
-        -- destruct (C _ H) as (_ & x1 & k1 & Hx1 & Hk1 & Hf1). exists x1, k1. auto.
-      * intros u [Hu|Hu]; [subst u; left; exists k; auto|]. destruct (D _ Hu) as [(k1 & Hk1 & Hin1 & Hl1)|Hge].
+      * intros u [Hu|Hu].
+        -- subst u. split; auto. destruct (so_tbl _ _ _ _ _ A _ _ Hin) as (_ & x1 & Hx1 & Hf1).
+           exists x1, k. auto.
+        -- destruct (C _ Hu) as (Hb & x1 & k1 & Hx1 & Hk1 & Hf1). split; auto. exists x1, k1. auto.
+      * intros u [Hu|Hu]; [subst u; left; exists k; auto|].
+        destruct (D _ Hu) as [(k1 & Hk1 & Hin1 & Hl1)|Hge].
         -- left. exists k1. auto.
         -- right. auto.
       * constructor; auto. intros Hin2. destruct (D _ Hin2) as [(k1 & Hk1 & Hkin1 & Hl1)|Hge].
